@@ -4,7 +4,7 @@
      GlobalsFrame   a global changes only when the executed top-level statement is an
                     assignment to that name or a function definition of that name - in
                     particular no call, however nested, writes a global through a local
-                    assignment (the alphabet has no systemGlobalSet)
+                    assignment (the one systemGlobalSet('pp', ...) statement of the alphabet may write pp)
      FunctionBinds  executing a function statement binds exactly that global to a script function
      LibraryKept    the library is never written into the globals by the machine          *)
 EXTENDS ScopeAlphabet
@@ -22,11 +22,18 @@ Next == /\ status = "run"
 Spec == Init /\ [][Next]_vars
 Cur == ProgOf(ix)[pc]
 Changed == { n \in DOMAIN st'.g : n \notin DOMAIN st.g \/ st'.g[n] # st.g[n] }
+\* the one statement of the alphabet that writes a global through the library: systemGlobalSet('pp', ...)
+RECURSIVE CallsIn(_)
+CallsIn(e) == CASE e.k = "call" -> {e.name} \cup UNION { CallsIn(e.args[i]) : i \in 1..Len(e.args) }
+                [] e.k = "bin" -> CallsIn(e.l) \cup CallsIn(e.r)
+                [] e.k \in {"un", "grp"} -> CallsIn(e.e)
+                [] OTHER -> {}
+SetsPP == Cur.k = "expr" /\ "systemGlobalSet" \in CallsIn(Cur.e)
 GlobalsFrame == [][ pc <= Len(ProgOf(ix)) =>
-                      \A n \in Changed : (Cur.k = "expr" /\ Cur.name = n) \/ (Cur.k = "function" /\ Cur.name = n) ]_vars
+                      \A n \in Changed : (Cur.k = "expr" /\ Cur.name = n) \/ (Cur.k = "function" /\ Cur.name = n) \/ (n = "pp" /\ SetsPP) ]_vars
 FunctionBinds == [][ (pc <= Len(ProgOf(ix)) /\ Cur.k = "function" /\ st'.exc = "") =>
                        (st'.g[Cur.name].t = "fn" /\ st'.g[Cur.name].f = "script" /\ st'.g[Cur.name].def.body = Cur.body) ]_vars
-LibraryKept == \A n \in DOMAIN st.g : st.g[n].t = "fn" => st.g[n].f \in {"script", "host"}
+LibraryKept == \A n \in DOMAIN st.g : st.g[n].t = "fn" => st.g[n].f \in {"script", "host", "partial"}
 NeverShrinks == [][ DOMAIN st.g \subseteq DOMAIN st'.g ]_vars
 EndInv == status \in {"run", "done", "limit", "label", "undefined"}
 =============================================================================
